@@ -269,6 +269,25 @@ class StructRef:
         return 'StructRef(%s)' % self.name
 
 
+class DynStruct:
+    """Struct(name, *members) built at run time from member constructs reached symbolically (field factories of a
+    structs object applied to a member name, nested DynStruct / DynSwitch): parsed member by member, in order, into a
+    Container keyed by the member names -- construct's Struct semantics"""
+
+    def __init__(self, name, members):
+        self.field_name, self.members = name, members
+
+    def __repr__(self):
+        return 'DynStruct(%s)' % self.field_name
+
+
+class DynSwitch:
+    """Switch(name, keyfunc, cases): the member construct is selected by keyfunc(context) among the cases; no default"""
+
+    def __init__(self, name, keyfunc, cases):
+        self.field_name, self.keyfunc, self.cases = name, keyfunc, cases
+
+
 class Opaque:
     """A value the model does not interpret."""
 
